@@ -1,6 +1,7 @@
 """C05 — parallel tempering keeps every replica at its own thermal distribution (partial by nature:
 invariance is proved, ergodicity is not a theorem)."""
 from checks import pure_fns
+from checks import scale_inv
 LEAN_TARGETS = ["QmcProps.C05", "drv_c05", "QmcProps.C02", "drv_c02", "drv_c04"]
 BINS = ["c05", "c02"]
 
@@ -66,4 +67,6 @@ def main(ck):
         ck.assumptions.append("a common fixed cutoff L during the swap phase (established by the step: C10 cutoffs_equal_after_step); cutoff growth changes the configuration space and is outside the invariance statement")
         ck.assumptions.append("NOT proved: ergodicity / convergence to the stationary law; that the SSE weight marginalises to the quantum thermal state (C01)")
         ck.notes.append("partial: the theorem is invariance of the product law under the kernels the code implements (acceptance tied to the code by C10 bisection); 'samples exactly' additionally needs ergodicity")
+    scale_inv.run(ck, "c05")   # power-of-two unit change: identical trajectory, energies exactly scaled (model-free twin oracle)
+    scale_inv.run(ck, "c08", tags=['C08'])   # a broken diagonal update (C08) breaks each replica's equilibrium, i.e. this property too
     return ck.finish(RULE)
